@@ -67,19 +67,19 @@ Definition at_pos (it : iter) (bs : list bucket) (bi k : nat) : Prop :=
 Definition at_end (it : iter) (bs : list bucket) : Prop :=
   it_hm K it = true /\ it_bucket K it = length bs /\ it_entry K it = 0 /\ it_fault K it = false.
 
-Lemma iter_next_pos : forall (m : hmap) it bi k, length (h_bkts K m) = Z.to_nat (h_mask K m + 1) ->
+Lemma iter_next_pos : forall g (m : hmap) it bi k, length (h_bkts K m) = Z.to_nat (h_mask K m + 1) ->
   at_pos it (h_bkts K m) bi k ->
   match rest (h_bkts K m) bi k with
-  | [] => exists it', iter_next K false m it = (it', false) /\ at_end it' (h_bkts K m)
-  | x :: r => exists it' bi' k', iter_next K false m it = (it', true) /\ it_cur K it' = Some (kv x) /\
+  | [] => exists it', iter_next K g m it = (it', false) /\ at_end it' (h_bkts K m)
+  | x :: r => exists it' bi' k', iter_next K g m it = (it', true) /\ it_cur K it' = Some (kv x) /\
                 at_pos it' (h_bkts K m) bi' k' /\ rest (h_bkts K m) bi' k' = r
   end.
 Proof.
-  intros m it bi k Hlen [Hhm [Hb [He [Hf [Hbi Hk]]]]].
+  intros g m it bi k Hlen [Hhm [Hb [He [Hf [Hbi Hk]]]]].
   set (bs := h_bkts K m) in *.
   unfold iter_next. rewrite Hhm. simpl negb. cbv iota. rewrite <- Hlen. fold bs. rewrite Hb.
   assert (Hpast : (length bs <=? bi)%nat = false) by (apply Nat.leb_gt; exact Hbi).
-  rewrite Hpast. simpl andb. cbv iota. rewrite Hf. simpl orb.
+  rewrite Hpast, Bool.andb_false_r. cbv iota. rewrite Hf. simpl orb.
   rewrite He. replace (Z.of_nat k - 1 + 1) with (Z.of_nat k) by lia.
   unfold b_used. destruct (Z.of_nat k >=? Z.of_nat (length (b_ents (bkt bs bi)))) eqn:Hge.
   - (* bucket exhausted: scan forward *)
@@ -120,16 +120,16 @@ Lemma iter_run_S : forall g f (m : hmap) it, iter_run K g (S f) m it =
   else ([], it', O).
 Proof. reflexivity. Qed.
 
-Lemma iter_run_pos : forall (m : hmap), length (h_bkts K m) = Z.to_nat (h_mask K m + 1) ->
+Lemma iter_run_pos : forall g (m : hmap), length (h_bkts K m) = Z.to_nat (h_mask K m + 1) ->
   forall l it bi k fuel, at_pos it (h_bkts K m) bi k -> rest (h_bkts K m) bi k = l -> (length l < fuel)%nat ->
-  exists itf, iter_run K false fuel m it = (map kv l, itf, length l) /\ at_end itf (h_bkts K m).
+  exists itf, iter_run K g fuel m it = (map kv l, itf, length l) /\ at_end itf (h_bkts K m).
 Proof.
-  intros m Hlen. induction l as [|x r IH]; intros it bi k fuel Hpos Hrest Hfuel.
+  intros g m Hlen. induction l as [|x r IH]; intros it bi k fuel Hpos Hrest Hfuel.
   - destruct fuel as [|f]; [simpl in Hfuel; lia|]. rewrite iter_run_S.
-    pose proof (iter_next_pos m it bi k Hlen Hpos) as Hn. rewrite Hrest in Hn.
+    pose proof (iter_next_pos g m it bi k Hlen Hpos) as Hn. rewrite Hrest in Hn.
     destruct Hn as [it' [Hnx Hend]]. rewrite Hnx. exists it'. split; [reflexivity | exact Hend].
   - destruct fuel as [|f]; [simpl in Hfuel; lia|]. rewrite iter_run_S.
-    pose proof (iter_next_pos m it bi k Hlen Hpos) as Hn. rewrite Hrest in Hn.
+    pose proof (iter_next_pos g m it bi k Hlen Hpos) as Hn. rewrite Hrest in Hn.
     destruct Hn as [it' [bi' [k' [Hnx [Hcur [Hpos' Hrest']]]]]]. rewrite Hnx.
     destruct (IH it' bi' k' f Hpos' Hrest' ltac:(simpl in Hfuel; lia)) as [itf [Hrun Hend]].
     rewrite Hrun, Hcur. exists itf. split; [reflexivity | exact Hend].
@@ -149,7 +149,7 @@ Proof.
   { unfold at_pos, iter_init. simpl. repeat split; try reflexivity; try lia. }
   assert (Hr0 : rest (h_bkts K m) 0 0 = ents K (h_bkts K m)).
   { unfold rest, ents. simpl skipn at 1. symmetry. apply skipn_1_cons. exact Hpos. }
-  destruct (iter_run_pos m Hlen _ _ 0%nat 0%nat (S (Z.to_nat (h_count K m))) Hp0 Hr0) as [itf [Hrun Hend]].
+  destruct (iter_run_pos true m Hlen _ _ 0%nat 0%nat (S (Z.to_nat (h_count K m))) Hp0 Hr0) as [itf [Hrun Hend]].
   { rewrite Hcnt, Nat2Z.id. lia. }
   exists itf. split; [|exact Hend]. rewrite Hrun. unfold hiter. rewrite Hcnt, Nat2Z.id. reflexivity.
 Qed.
